@@ -319,8 +319,14 @@ func rt_9(c *core.Ctx, p *core.Prog) {
 	for _, fn := range p.FuncsIn(func(pp string) bool { return pp == pkgCommonOtlp }) {
 		var writes []*ssa.Call
 		core.EachInstr(fn, func(i ssa.Instruction) {
-			if cl, ok := i.(*ssa.Call); ok && core.IsMethodOf(core.CalleeObj(cl), "strings", "Builder", "WriteString") {
-				writes = append(writes, cl)
+			if cl, ok := i.(*ssa.Call); ok {
+				f := core.CalleeObj(cl)
+				// every way of putting text into the builder: WriteString, Write, WriteByte, WriteRune, fmt.Fprint*(b, …)
+				for _, m := range []string{"WriteString", "Write", "WriteByte", "WriteRune"} {
+					if core.IsMethodOf(f, "strings", "Builder", m) {
+						writes = append(writes, cl)
+					}
+				}
 			}
 		})
 		if len(writes) == 0 {
